@@ -11,24 +11,24 @@ structure Ident where
   pos : Nat
   name : String
 
-inductive ChanMode where
-  | Send
-  | Recv
-deriving DecidableEq, Repr, Inhabited
-
-structure StringLit where
-  pos : Nat
-  value : String
-
 structure BasicLit where
   pos : Nat
   kind : LitKind
   value : String
 
+inductive ChanMode where
+  | Send
+  | Recv
+deriving DecidableEq, Repr, Inhabited
+
 structure BranchStmt where
   pos : Nat
   key : Keyword
   ident : (Option Ident)
+
+structure StringLit where
+  pos : Nat
+  value : String
 
 structure EmptyStmt where
   pos : Nat
